@@ -63,6 +63,9 @@ def impl_op(cux, op):
             if seq != seq0 or sst != sst0:
                 return 'input-modified'
             return 'ok ' + ' '.join(a) + ' / ' + ''.join(b)
+        if k == 'rotdb':
+            seq = op[1].split(' ') if op[1] else []
+            return 'ok ' + ' ; '.join(' '.join(a) + ' / ' + ''.join(b) for a, b in cux.rotate_complex_db(seq, list(op[2])))
         if k == 'rotdb.str':
             return 'ok ' + ' ; '.join('%s / %s' % (a, b) for a, b in cux.rotate_complex_db(op[1], op[2], join=True))
         if k == 'rotpt':
@@ -326,18 +329,20 @@ def _objs(c, names):
 
 
 # ---- the functions translated from the source (Gen/PyFuncs.lean) are driven with the same inputs ---------------------------
-PY_TWIN = {'split': 'pysplit', 'rotpt': 'pyrotpt', 'rot1x': 'pyrot1', 'mpt': 'pympt', 'ptdb': 'pyptdb', 'rot1': 'pyrot1', 'loop': 'pyloop', 'loop.pt': 'pyloop.pt'}
+PY_TWIN = {'split': ('pysplit', 'pysplitdb'), 'rotdb': 'pyrotdb', 'mst.str': 'pystab.str', 'mst.list': 'pystab', 'stseq': 'pystseq',
+           'rotpt': 'pyrotpt', 'rot1x': 'pyrot1', 'mpt': 'pympt', 'ptdb': 'pyptdb', 'rot1': 'pyrot1', 'loop': 'pyloop', 'loop.pt': 'pyloop.pt'}
 
 
 def source_derived_stream(res, proof, name, ops, impl):
     """the statement-level translation of complex_utils.py (regenerated from the working tree) against the implementation:
     a disagreement means the translator's reading of Python is wrong for that statement - or the code changed under it"""
     from .. import core
-    sel = [(op, out) for op, out in zip(ops, impl) if op[0] in PY_TWIN]
-    lines = ['\t'.join((PY_TWIN[op[0]],) + tuple(op[1:])) for op, _ in sel]
+    sel = [(tw, op, out) for op, out in zip(ops, impl) if op[0] in PY_TWIN
+           for tw in (PY_TWIN[op[0]] if isinstance(PY_TWIN[op[0]], tuple) else (PY_TWIN[op[0]],))]
+    lines = ['\t'.join((tw,) + tuple(op[1:])) for tw, op, _ in sel]
     try:
         model = core.run_driver(lines)
-        core.compare_streams(res, name, lines, [o for _, o in sel], model)
+        core.compare_streams(res, name, lines, [o for _, _, o in sel], model)
     except core.DriverBroken as e:
         proof.problem('driver', str(e))
     res.dist['source_derived_ops:' + name] = len(lines)
